@@ -1,5 +1,6 @@
 import GceTcb.Model.SevCfg
 import GceTcb.Proofs.SnpBounds
+import GceTcb.Proofs.SnpExample
 import GceTcb.Gen.AbiSizes
 /-
 C04 — SEV-SNP golden measurement equals the AMD launch-digest definition.
@@ -127,6 +128,35 @@ theorem C04_vmsa_layout (v : Vmsa) (h : SnpVmsa.entriesOk v 4096 Gen.SevLayout.V
   rw [C04_gen_vmsa_layout.1, C04_gen_vmsa_layout.2.1] at *
   exact SnpVmsa.putVmsa_spec_layout v h
 
+/-- **Strictness of PutVmsa** (the converse of `C04_vmsa_layout`): on a fresh 4 KiB page the regenerated PutVmsa
+    returns a page exactly when every statement's check passes, and the page is then the APM-layout bytes. -/
+theorem C04_vmsa_strict (v : Vmsa) (page : Bytes) :
+    putVmsa Gen.SevLayout.VmsaLayout Gen.SevLayout.SizeofVmsaCheck v (zeros 4096) = .ok page ↔
+      SnpVmsa.entriesOk v 4096 Gen.SevLayout.VmsaLayout ∧ page = Spec.SnpLaunch.vmsaBytes v.f := by
+  rw [C04_gen_vmsa_layout.1, C04_gen_vmsa_layout.2.1]
+  exact SnpVmsa.putVmsa_spec_iff v page
+
+/-- Hence every accepted save area has: segment selectors and attributes below 2^16, CPL below 2^8, every 64-bit
+    reserved field (incl. X87_STATE_GPA, which PutVmsa does not write) zero, and every reserved byte field — incl.
+    VALID_BITMAP and the 1016-byte reserved_12 beyond the written area — absent or of exactly its ABI size and all
+    zero.  Nothing is dropped silently (D23) and the ABI size of reserved_11 is 48 bytes, 0x3B8–0x3E7 (D11b). -/
+theorem C04_vmsa_accepted_fields (v : Vmsa) (page : Bytes)
+    (h : putVmsa Gen.SevLayout.VmsaLayout Gen.SevLayout.SizeofVmsaCheck v (zeros 4096) = .ok page) :
+    (∀ e ∈ Gen.SevLayout.VmsaLayout, SnpVmsa.EntryStrict v e) ∧
+    v.f "X87StateGpa" = 0 ∧ v.f "Reserved_8" = 0 ∧ v.f "Reserved_9" = 0 ∧
+    ((v.r "ValidBitmap").length = 0 ∨ ((v.r "ValidBitmap").length = 16 ∧ allZero (v.r "ValidBitmap") = true)) ∧
+    ((v.r "Reserved_11").length = 0 ∨ ((v.r "Reserved_11").length = 48 ∧ allZero (v.r "Reserved_11") = true)) ∧
+    ((v.r "Reserved_12").length = 0 ∨ ((v.r "Reserved_12").length = 1016 ∧ allZero (v.r "Reserved_12") = true)) := by
+  have hok := ((C04_vmsa_strict v page).mp h).1
+  have hs : ∀ e ∈ Gen.SevLayout.VmsaLayout, SnpVmsa.EntryStrict v e := fun e he => SnpVmsa.entryCheck_strict v 4096 e (hok e he)
+  refine ⟨hs, ?_, ?_, ?_, ?_, ?_, ?_⟩
+  · exact (hs ("resv64", 0x400, 0x408, "X87StateGpa") (by decide)).2.2.1 rfl
+  · exact (hs ("resv64", 0x300, 0x308, "Reserved_8") (by decide)).2.2.1 rfl
+  · exact (hs ("resv64", 0x320, 0x328, "Reserved_9") (by decide)).2.2.1 rfl
+  · exact (hs ("resv", 0x3F0, 0x400, "ValidBitmap") (by decide)).2.2.2 (Or.inl rfl)
+  · exact (hs ("resv", 0x3B8, 0x3E8, "Reserved_11") (by decide)).2.2.2 (Or.inl rfl)
+  · exact (hs ("mbz", 0x408, 0x800, "Reserved_12") (by decide)).2.2.2 (Or.inr rfl)
+
 /-- a VMSA value that fails a check of PutVmsa is refused with an error: e.g. a 17-bit selector -/
 theorem C04_vmsa_rejects_wide_selector (v : Vmsa) (h : v.f "Es.Selector" ≥ 2 ^ 16) :
     putVmsa Gen.SevLayout.VmsaLayout Gen.SevLayout.SizeofVmsaCheck v (zeros 4096) = .err "selector-range" := by
@@ -208,6 +238,173 @@ theorem C04_unsigned_snp (H : Bytes → Bytes) (launchVmsas product : Nat) (fw :
         · exact hl
         · exact h2 p hp
 
+
+/-! ## a concrete image, evaluated by the kernel
+
+`SevExample.exFw` (Model/SevExample.lean) is a 4 KiB image: SEV metadata at offset 0 declaring, in this
+order, a secrets page 0x80D000, nine unmeasured pages from 0x800000, a CPUID page 0x80E000 and an SVSM
+calling area 0x80C000; GUIDed table with the metadata-offset block and the SEV-ES reset block (AP reset
+vector 0x0080B004) before the footer.  The harness builds the same bytes independently, compares them with
+the driver's (`c04 op=example`) and runs the real sev.LaunchDigest on them. -/
+
+open GceTcb.SevExample in
+/-- The hypothesis side of `C04_digest_eq_spec` is inhabited: the example image meets `Accepts` for every
+    vCPU count ≥ 1 and any product — and its declared order is not the ascending one. -/
+theorem C04_example_accepts (o : Opts) (hv : 1 ≤ o.vcpus) :
+    Accepts o exFw exRb exSecs ∧ exFw.length = 4096 ∧ exRb.addr = 0x80B004 ∧
+    ¬ exSecs.Pairwise (fun a b => a.address ≤ b.address) :=
+  ⟨SnpExample.ex_accepts o hv, SnpExample.ex_length, rfl, by decide⟩
+
+open GceTcb.SevExample in
+/-- sev.LaunchDigest on the example image returns the specification's SNP_LAUNCH_UPDATE chain — for every
+    hash with 48-byte output (nothing is hashed in this proof), every vCPU count ≥ 1, Milan and Genoa. -/
+theorem C04_example_digest (H : Bytes → Bytes) (hH : ∀ x, (H x).length = 48) (o : Opts)
+    (hp : o.product = 1 ∨ o.product = 2) (hv : 1 ≤ o.vcpus) :
+    launchDigest H genCfg o exFw =
+      .ok (Spec.SnpLaunch.snpSpec H exFw (exSecs.map toSpec) 0x80B004 o.vcpus.toNat (genCfg.width o.product)) :=
+  SnpExample.ex_digest H hH C04_cfg_is_spec o hp hv
+
+open GceTcb.SevExample in
+/-- … and that chain runs over these pages (PAGE_TYPE, GPA, has contents), then `vcpus` VMSA pages: the ROM
+    page below 4 GiB, then the metadata ranges in DECLARED order (not sorted by address). -/
+theorem C04_example_pages :
+    (Spec.SnpLaunch.romPages exFw ++ (exSecs.map toSpec).flatMap Spec.SnpLaunch.sectionPages).map
+        (fun p => (p.pageType, p.gpa, p.data.isSome)) =
+      [(1, 0xFFFFF000, true), (5, 0x80D000, false),
+       (4, 0x800000, false), (4, 0x801000, false), (4, 0x802000, false), (4, 0x803000, false), (4, 0x804000, false),
+       (4, 0x805000, false), (4, 0x806000, false), (4, 0x807000, false), (4, 0x808000, false),
+       (6, 0x80E000, false), (3, 0x80C000, false)] ∧
+    (∀ vcpus, (Spec.SnpLaunch.vmsaPages 0x80B004 vcpus (Spec.SnpLaunch.productHigh 48)).map (fun p => (p.pageType, p.gpa)) =
+      (2, 0xFFFFFFFFF000) :: List.replicate (vcpus - 1) (2, 0xFFFFFFFFF000)) := by
+  refine ⟨SnpExample.ex_spec_pages, fun vcpus => ?_⟩
+  simp [Spec.SnpLaunch.vmsaPages, Spec.SnpLaunch.vmsaPage, List.map_replicate, Spec.SnpLaunch.productHigh,
+    Spec.SnpLaunch.pageTypeVmsa]
+
+open GceTcb.SevExample in
+/-- Each edit of ONE descriptor of the example realises one malformation named in the property (the clause
+    of `Malformed` in the same position), and the edited image still parses — so the hypotheses of
+    `C04_rejects_malformed` are inhabited clause by clause. -/
+theorem C04_example_malformed :
+    Malformed vMisAddr ∧ Malformed vMisLen ∧ Malformed vEmpty ∧ Malformed vOverlap ∧ Malformed vDupCpuid ∧
+    Malformed vDupSecret ∧ Malformed vNoUnmeasured ∧ Malformed vNoSecret ∧ Malformed vNoCpuid ∧ Malformed vUnknown ∧
+    (variants.map (·.2)).all (fun v => v.length == 4 && (List.zip v exSecs).countP (fun p => p.1 != p.2) == 1) = true :=
+  ⟨.misaligned ⟨0x810800, 0x1000, kindSecret⟩ (by decide) (Or.inl (by decide)),
+   .misaligned ⟨0x800000, 0x8800, kindUnmeasured⟩ (by decide) (Or.inr (by decide)),
+   .empty ⟨0x80C000, 0, kindSvsmCaa⟩ (by decide) rfl,
+   .overlap (by decide), .duplicateCpuid (by decide), .duplicateSecrets (by decide),
+   .missingUnmeasured (by decide), .missingSecrets (by decide), .missingCpuid (by decide),
+   .unknownKind ⟨0x80C000, 0x1000, 5⟩ (by decide) (by unfold KindKnown; decide), by decide⟩
+
+section rejected
+open GceTcb.SevExample
+variable (H : Bytes → Bytes) (hH : ∀ x, (H x).length = 48) (o : Opts) (hp : o.product = 1 ∨ o.product = 2) (hv : 1 ≤ o.vcpus)
+include hH hp hv
+
+/-- the secrets page moved to 0x810800: refused by the first iteration of the section loop -/
+theorem C04_example_rejected_misaligned_address : launchDigest H genCfg o (fwOf vMisAddr) = .err "align-addr" :=
+  SnpExample.rejected_misaligned_address H hH o hp hv
+/-- the unmeasured range shortened to 8.5 pages -/
+theorem C04_example_rejected_misaligned_length : launchDigest H genCfg o (fwOf vMisLen) = .err "section-length" :=
+  SnpExample.rejected_misaligned_length H hH o hp hv
+/-- the SVSM calling area with length 0 -/
+theorem C04_example_rejected_empty : launchDigest H genCfg o (fwOf vEmpty) = .err "section-length" :=
+  SnpExample.rejected_empty H hH o hp hv
+/-- the SVSM calling area moved into the unmeasured range -/
+theorem C04_example_rejected_overlap : launchDigest H genCfg o (fwOf vOverlap) = .err "overlap" :=
+  SnpExample.rejected_overlap H hH o hp hv
+theorem C04_example_rejected_duplicate_cpuid : launchDigest H genCfg o (fwOf vDupCpuid) = .err "dup-kind" :=
+  SnpExample.rejected_duplicate_cpuid H hH o hp hv
+theorem C04_example_rejected_duplicate_secrets : launchDigest H genCfg o (fwOf vDupSecret) = .err "dup-kind" :=
+  SnpExample.rejected_duplicate_secrets H hH o hp hv
+theorem C04_example_rejected_missing_unmeasured : launchDigest H genCfg o (fwOf vNoUnmeasured) = .err "no-unmeasured" :=
+  SnpExample.rejected_missing_unmeasured H hH o hp hv
+theorem C04_example_rejected_missing_secrets : launchDigest H genCfg o (fwOf vNoSecret) = .err "no-secret" :=
+  SnpExample.rejected_missing_secrets H hH o hp hv
+theorem C04_example_rejected_missing_cpuid : launchDigest H genCfg o (fwOf vNoCpuid) = .err "no-cpuid" :=
+  SnpExample.rejected_missing_cpuid H hH o hp hv
+/-- descriptor kind 5: the three ranges before it are measured, then the kind switch refuses it -/
+theorem C04_example_rejected_unknown_kind : launchDigest H genCfg o (fwOf vUnknown) = .err "unknown-kind" :=
+  SnpExample.rejected_unknown_kind H hH o hp hv
+
+end rejected
+
+/-! ## the library sort
+
+`sort.Slice` is library code; the model uses `List.mergeSort`.  The only thing assumed about the library is its
+documented contract (`SnpSections.SortsBy`): the slice is rearranged so that no later element is `less` than
+an earlier one; it need not be stable. -/
+
+/-- With ANY sorting function that meets the contract of `sort.Slice(checkData, start_i < start_j)` in place of
+    the model's merge sort, validateSections returns the same outcome on every descriptor list: the verdict of
+    the sort-based overlap check does not depend on the algorithm (pdqsort in Go 1.19+), on stability, or on the
+    order it leaves descriptors with equal start addresses in. -/
+theorem C04_sort_model_immaterial (sort : List Sec → List Sec) (h : SnpSections.SortsBy SnpSections.startLt sort)
+    (secs : List Sec) : SnpSections.validateSectionsWith sort secs = validateSections secs :=
+  SnpSections.validateSectionsWith_eq sort h secs
+
+/-! ## product values outside {Milan, Genoa}
+
+The property quantifies over the supported products, and so does `C04_digest_eq_spec`.  sev.LaunchDigest itself
+does not refuse other values of the enum (`bitWidth[product]` reads 0 for a missing key): the theorems below say
+exactly what it does.  Reachability: the CLI flag `--snp_product` is parsed by go-sev-guest's
+`kds.ParseProductLine`, which accepts "Turin" (enum value 3) besides "Milan" and "Genoa"; `sev.UnsignedSnp` and
+`endorse` pass the value on unchecked.  See the builder report / DESIGN for the classification. -/
+
+/-- sev.LaunchDigest for EVERY product value and every image up to 4 GiB: it returns `d` exactly when the image
+    parses, the ROM range and every section range pass the code's alignment and range checks evaluated in uint64
+    at `high = ProductHighAddress(product)`, the metadata is valid with known kinds — and `d` is the digest chain
+    with all VMSA pages at `high`. -/
+theorem C04_any_product_behaviour (H : Bytes → Bytes) (hH : ∀ x, (H x).length = 48) (o : Opts) (fw : Bytes)
+    (hfw : fw.length ≤ 2 ^ 32) (d : Bytes) :
+    launchDigest H genCfg o fw = .ok d ↔
+      ∃ rb secs, SnpAnyProduct.AcceptsAt (productHigh (genCfg.width o.product)) o fw rb secs ∧
+        d = SnpAnyProduct.chainAt H fw (secs.map toSpec) rb.addr o.vcpus.toNat (productHigh (genCfg.width o.product)) :=
+  SnpAnyProduct.launchDigest_any H hH genCfg C04_cfg_is_spec o fw hfw d
+
+/-- a product that is not a key of `bitWidth` has width 0 and `ProductHighAddress` 0 -/
+theorem C04_unsupported_product_width (product : Nat) (hp : product ≠ 1 ∧ product ≠ 2) :
+    genCfg.width product = 0 ∧ productHigh (genCfg.width product) = 0 ∧ Spec.SnpLaunch.productHigh 0 = 0 := by
+  rw [SnpExample.genWidth_zero product hp]
+  exact ⟨rfl, by decide, by decide⟩
+
+/-- **What happens for an unsupported product** (UNKNOWN = 0, Turin = 3, any other number), images up to 4 GiB:
+    the product is not refused.  A digest is returned exactly for the images `Accepts` describes whose ROM has at
+    least two pages and whose every metadata range has at least two pages or starts at address 0 (the range check
+    `gpa > 0 + 0x1000 − len` wraps around 2^64 for `len > 0x1000`, and reads `gpa > 0` for one page); that digest
+    is the chain with every VMSA page at guest-physical address 0 — `snpSpec` for "address width 0" — which is the
+    launch digest of no AMD product.  All other images are refused (`C04_unsupported_product_witness`: a one-page
+    range above address 0 gives "address range is larger than the product can represent"). -/
+theorem C04_unsupported_product_behaviour (H : Bytes → Bytes) (hH : ∀ x, (H x).length = 48) (o : Opts)
+    (hp : o.product ≠ 1 ∧ o.product ≠ 2) (fw : Bytes) (hfw : fw.length ≤ 2 ^ 32) (d : Bytes) :
+    launchDigest H genCfg o fw = .ok d ↔
+      ∃ rb secs, Accepts o fw rb secs ∧ 0x2000 ≤ fw.length ∧ (∀ s ∈ secs, 0x2000 ≤ s.length ∨ s.address = 0) ∧
+        d = Spec.SnpLaunch.snpSpec H fw (secs.map toSpec) rb.addr o.vcpus.toNat 0 :=
+  SnpAnyProduct.launchDigest_width_zero H hH genCfg C04_cfg_is_spec o (SnpExample.genWidth_zero _ hp) fw hfw d
+
+open GceTcb.SevExample in
+/-- Concrete witnesses, kernel-evaluated (Model/SevExample.lean): (1) `wideFw`, 8 KiB, secrets / CPUID / SVSM
+    ranges of two pages: measured for every unsupported product, VMSA pages at GPA 0 — on Milan the same image has
+    them at 0xFFFFFFFFF000; (2) the 4 KiB example image: refused at the ROM; (3) `twoPageFw`, 8 KiB with the
+    example's one-page secrets and CPUID ranges (what OVMF declares): refused at the first section. -/
+theorem C04_unsupported_product_witness (H : Bytes → Bytes) (hH : ∀ x, (H x).length = 48) (o : Opts)
+    (hp : o.product ≠ 1 ∧ o.product ≠ 2) (hv : 1 ≤ o.vcpus) :
+    launchDigest H genCfg o wideFw = .ok (Spec.SnpLaunch.snpSpec H wideFw (wideSecs.map toSpec) 0x80B004 o.vcpus.toNat 0) ∧
+    (Spec.SnpLaunch.vmsaPages 0x80B004 o.vcpus.toNat (Spec.SnpLaunch.productHigh 0)).map (·.gpa) =
+      List.replicate (1 + (o.vcpus.toNat - 1)) 0 ∧
+    launchDigest H genCfg ⟨o.vcpus, 1⟩ wideFw =
+      .ok (Spec.SnpLaunch.snpSpec H wideFw (wideSecs.map toSpec) 0x80B004 o.vcpus.toNat 48) ∧
+    (Spec.SnpLaunch.vmsaPages 0x80B004 o.vcpus.toNat (Spec.SnpLaunch.productHigh 48)).map (·.gpa) =
+      List.replicate (1 + (o.vcpus.toNat - 1)) 0xFFFFFFFFF000 ∧
+    launchDigest H genCfg o exFw = .err "range" ∧
+    launchDigest H genCfg o twoPageFw = .err "range" := by
+  refine ⟨SnpExample.wide_digest_unsupported H hH C04_cfg_is_spec o hp hv, ?_,
+    SnpExample.wide_digest_supported H hH C04_cfg_is_spec ⟨o.vcpus, 1⟩ (Or.inl rfl) hv, ?_,
+    SnpExample.ex_unsupported_rejected H o hp hv, SnpExample.twoPage_unsupported_rejected H hH o hp hv⟩
+  · simp [Spec.SnpLaunch.vmsaPages, Spec.SnpLaunch.vmsaPage, Spec.SnpLaunch.productHigh, List.replicate_succ,
+      Nat.add_comm 1]
+  · simp [Spec.SnpLaunch.vmsaPages, Spec.SnpLaunch.vmsaPage, Spec.SnpLaunch.productHigh, List.replicate_succ,
+      Nat.add_comm 1]
+
 /-! ## non-vacuity -/
 
 -- a hash with 48-byte output exists (SHA-384 in the driver; here the constant one)
@@ -225,6 +422,20 @@ example : validateSections [⟨0x800000, 0x3000, 1⟩, ⟨0x803000, 0x1000, 2⟩
   (SnpSections.validateSections_ok_iff _).mpr ⟨by decide, by decide, by decide, by decide, by decide, by decide, by decide⟩
 example : Malformed [⟨0xFFFFE000, 0x3000, 1⟩, ⟨0xFFFFF000, 0x1000, 2⟩, ⟨0x1000, 0x1000, 3⟩] :=
   .overlap (by decide)
+-- `Accepts` is inhabited for 1 and 4 vCPUs; the digest theorem applies to them on Milan and on Genoa
+example : Accepts ⟨1, 1⟩ SevExample.exFw SevExample.exRb SevExample.exSecs := (C04_example_accepts _ (by decide)).1
+example : Accepts ⟨4, 2⟩ SevExample.exFw SevExample.exRb SevExample.exSecs := (C04_example_accepts _ (by decide)).1
+example (H : Bytes → Bytes) (hH : ∀ x, (H x).length = 48) : ∃ d, launchDigest H genCfg ⟨1, 1⟩ SevExample.exFw = .ok d :=
+  ⟨_, C04_example_digest H hH ⟨1, 1⟩ (Or.inl rfl) (by decide)⟩
+example (H : Bytes → Bytes) (hH : ∀ x, (H x).length = 48) : ∃ d, launchDigest H genCfg ⟨4, 2⟩ SevExample.exFw = .ok d :=
+  ⟨_, C04_example_digest H hH ⟨4, 2⟩ (Or.inr rfl) (by decide)⟩
+-- unsupported product values exist in the enum: UNKNOWN = 0 and Turin = 3 (accepted by the `--snp_product` flag)
+example (H : Bytes → Bytes) (hH : ∀ x, (H x).length = 48) : ∃ d, launchDigest H genCfg ⟨4, 3⟩ SevExample.wideFw = .ok d :=
+  ⟨_, (C04_unsupported_product_witness H hH ⟨4, 3⟩ (by decide) (by decide)).1⟩
+-- the sort contract is satisfiable (the model's merge sort meets it), and ties really may come out either way
+example : SnpSections.SortsBy SnpSections.startLt (fun l => l.mergeSort startLe) := SnpSections.mergeSort_sortsBy
+example : overlapSorted [⟨0x1000, 0x1000, 1⟩, ⟨0x1000, 0x2000, 2⟩] = true ∧ overlapSorted [⟨0x1000, 0x2000, 2⟩, ⟨0x1000, 0x1000, 1⟩] = true :=
+  SnpSections.tie_order_immaterial _ _ rfl (by decide) (by decide) []
 example : (ripAndCsBase ⟨0x80b004, 22, []⟩) = (0xb004, 0x800000) := by decide
 
 end GceTcb.Props.C04
